@@ -124,6 +124,9 @@ func genCases(rng *vh.Rng, seq *int, withWitness bool) []*hcase {
 		cases = append(cases, genManyIds(rng, seq, 400+rng.Intn(300)))
 	}
 	cases = append(cases, genManyIds(rng, seq, 1010+rng.Intn(150)))
+	for i := 0; i < 25; i++ {
+		cases = append(cases, genCollide(rng, seq))
+	}
 	return cases
 }
 
@@ -191,6 +194,9 @@ func runCases(env *vh.Env, rep *vh.Report, cases []*hcase) {
 		rep.Note("%d times the background goroutine did not park within 5 s", settleTimeouts)
 	}
 	rep.CountN("loggers-created", created)
+	if full, mods := collisions(); true {
+		rep.Extra["colliding_id_groups"] = map[string]interface{}{"identical_crc32": len(full), "same_bucket": len(mods), "example": append([]string{}, full[0]...)}
+	}
 }
 
 // histChildren runs chunks of histories in parallel child processes (each process has its own
